@@ -41,9 +41,14 @@ class KnownFinding:
 
     def region(self, env):
         scope = {"X": ex, "c": env.c, "env": env, "tags": env.tags, "tmin": core.tmin, "tmax": core.tmax,
-                 "bits": core.bits, "signed": core.signed}
+                 "bits": core.bits, "signed": core.signed, "fpconst": fpconst}
         scope.update(env.a)
         return eval(self.region_src, scope)
+
+
+def fpconst(like, value):
+    import z3
+    return z3.FPVal(value, like.sort())
 
 
 def load_known(pid):
